@@ -16,7 +16,8 @@ inline void fill_i32(GBuf& b, uint64_t salt) { for (size_t i = 0; i < b.bytes / 
 
 // ---- the *_simple convenience functions: 2 dimensions x 2 values of every cache-relevant parameter ----
 inline void add_simple_ops(std::vector<LsmOp>& ops) {
-  for (uint32_t m : {4u, 16u}) {
+  for (uint32_t m : {4u, 16u, 4096u}) {
+    const bool big = m > 16;  // large dimension (recursive FFT path): only the transforms and the pointwise products
     auto K = [&](const char* f) { return sfmt("%s/m=%u", f, m); };
     // in-place transforms
     struct T1 { const char* name; void (*simple)(uint32_t, void*); int which; };
@@ -58,6 +59,7 @@ inline void add_simple_ops(std::vector<LsmOp>& ops) {
       o.explicit_run = [body] { return body(true); };
       ops.push_back(o);
     }
+    if (big) continue;
     // layout conversions cplx <-> reim4
     for (int dir = 0; dir < 2; ++dir) {
       const char* nm = dir ? "reim4_to_cplx_simple" : "reim4_from_cplx_simple";
@@ -130,6 +132,7 @@ inline void add_module_ops(std::vector<LsmOp>& ops, const std::vector<uint64_t>&
   gen_salt() = salt;
   BoxOpts o; o.Ns = Ns; o.max_size = 2; o.extra_sizes = {}; o.vmp_max_dim = 2; o.vmp_max_size = 2; o.ks = {10}; o.cf = {CFG_NATIVE};
   for (auto& G : api_groups(o)) {
+    if (G.N >= 1024 && G.fam == F_VEC) continue;  // large N: only the transform / product / normalisation entry points
     // one representative (the last, i.e. largest, shape) per group
     std::shared_ptr<ApiCase> last;
     run_group(G, o, [&](ApiCase& c) { if (c.nontrivial) last = std::make_shared<ApiCase>(c); });
@@ -141,7 +144,7 @@ inline void add_module_ops(std::vector<LsmOp>& ops, const std::vector<uint64_t>&
   gen_salt() = 0;
 }
 inline void add_table_ops(std::vector<LsmOp>& ops) {
-  for (uint32_t m : {4u, 16u}) {
+  for (uint32_t m : {4u, 16u, 4096u}) {
     struct P { REIM_FFT_PRECOMP* rf; REIM_IFFT_PRECOMP* ri; CPLX_FFT_PRECOMP* cf; CPLX_IFFT_PRECOMP* ci; REIM_FFTVEC_MUL_PRECOMP* rm; REIM_FFTVEC_ADDMUL_PRECOMP* ra; REIM_TO_ZNX64_PRECOMP* tz; REIM_FROM_ZNX64_PRECOMP* fz; REIM_TO_TNX_PRECOMP* tt; };
     auto p = std::make_shared<P>();
     p->rf = new_reim_fft_precomp(m, 0); p->ri = new_reim_ifft_precomp(m, 0); p->cf = new_cplx_fft_precomp(m, 0); p->ci = new_cplx_ifft_precomp(m, 0);
@@ -182,6 +185,7 @@ struct Lsm {
   std::function<void(const std::string&)> on_transition;
   std::string last_id;
   uint64_t initial_hash = 0;
+  bool enforce_imm = true;  // C12: write traps on shared storage; C15 judges results only and never protects anything
 
   void init_shared() {
     base = (Baseline*)mmap(0, sizeof(Baseline) * ops.size(), PROT_READ | PROT_WRITE, MAP_SHARED | MAP_ANONYMOUS, -1, 0);
@@ -206,7 +210,10 @@ struct Lsm {
       pid_t p = fork();
       if (p == 0) {
         std::vector<uint8_t> before(I.stat, I.stat + I.stat_len);
-        base[k].out = ops[k].run();
+        TrapInfo& t = trap_info();
+        t.armed = 1;
+        if (sigsetjmp(t.jb, 1) == 0) { base[k].out = ops[k].run(); t.armed = 0; }
+        else { report(LSM_IMM, "lsm|baseline|" + ops[k].name, sfmt("in the initial state the call writes storage that must be immutable: %s", lsm_where(t.addr).c_str())); _exit(0); }
         std::vector<std::pair<uint32_t, uint32_t>> rg;
         diff_ranges(before, rg);
         base[k].nranges = (int)std::min<size_t>(rg.size(), 16);
@@ -238,22 +245,20 @@ struct Lsm {
     last_id = id;
     bool warmed = false;
     for (int j : path) if (!op.warm_key.empty() && ops[j].warm_key == op.warm_key) warmed = true;
-    bool protect = op.warm_key.empty() || op.tls_cached || warmed;
+    bool protect = enforce_imm && (op.warm_key.empty() || op.tls_cached || warmed);
     uint64_t out = 0;
-    if (protect) {
-      TrapInfo& t = trap_info();
-      lsm_protect(true);
-      t.armed = 1;
-      if (sigsetjmp(t.jb, 1) == 0) { out = op.run(); t.armed = 0; lsm_protect(false); }
-      else {
-        lsm_protect(false);
-        report(LSM_IMM, id, sfmt("the call writes shared storage that must be immutable at this point: %s (%s)", lsm_where(t.addr).c_str(),
-                                 op.warm_key.empty() ? "module / table operation" : op.tls_cached ? "its cache is thread-local" : "the function was already warmed up for this dimension"));
-        return 0;
-      }
-    } else {
-      std::vector<uint8_t> before(I.stat, I.stat + I.stat_len);
-      out = op.run();
+    TrapInfo& t = trap_info();
+    std::vector<uint8_t> before;
+    if (protect) lsm_protect(true); else before.assign(I.stat, I.stat + I.stat_len);
+    t.armed = 1;
+    if (sigsetjmp(t.jb, 1) == 0) { out = op.run(); t.armed = 0; if (protect) lsm_protect(false); }
+    else {
+      if (protect) lsm_protect(false);
+      report(LSM_IMM, id, sfmt("the call writes shared storage that must be immutable at this point: %s (%s)", lsm_where(t.addr).c_str(),
+                               !protect ? "a module / table object created earlier" : op.warm_key.empty() ? "module / table operation" : op.tls_cached ? "its cache is thread-local" : "the function was already warmed up for this dimension"));
+      return 0;
+    }
+    if (!protect && enforce_imm) {
       std::vector<std::pair<uint32_t, uint32_t>> rg;
       diff_ranges(before, rg);
       for (auto& r : rg) {
@@ -264,8 +269,8 @@ struct Lsm {
     if (out != base[k].out) report(LSM_HIST, id, "the outputs differ from the outputs of the same call in the initial state (result depends on the call history)");
     if (base[k].has_expl && out != base[k].expl) report(LSM_HIST, id, "the outputs differ from the same operation through freshly built explicit tables");
     uint64_t h = lsm_canon_hash();
-    if (warmed && !op.tls_cached && h != parent_hash) report(LSM_WARM, id, "repeating a warmed-up call changed the library state (it must be a self-loop)");
-    if (op.warm_key.empty() && h != parent_hash) report(LSM_IMM, id, "a module / table operation changed the library's hidden state");
+    if (enforce_imm && warmed && !op.tls_cached && h != parent_hash) report(LSM_WARM, id, "repeating a warmed-up call changed the library state (it must be a self-loop)");
+    if (enforce_imm && op.warm_key.empty() && h != parent_hash) report(LSM_IMM, id, "a module / table operation changed the library's hidden state");
     return h;
   }
 
